@@ -3,7 +3,7 @@
     records after every step the outcome class and a projection of the whole state; [check]
     re-runs the model on the same history and compares step by step. *)
 From Coq Require Import List ZArith Bool.
-From Paloma Require Import Base.Corr Base.Dec Paloma.LightNode.
+From Paloma Require Import Base.Corr Base.Dec Paloma.LightNode Paloma.LightNodeExt.
 Import ListNotations.
 Open Scope Z_scope.
 
@@ -74,7 +74,25 @@ Definition mk_init (t0 : Z) (fund : list (addr * denom * Z)) : state := {|
 Definition row_mem (r : list Z) (l : list (list Z)) : bool := existsb (list_eqb Z.eqb r) l.
 Definition rows_minus (a b : list (list Z)) : list (list Z) := filter (fun r => negb (row_mem r b)) a.
 
-Definition step_rec := (op * Z * list (list Z) * list (list Z))%type.   (* op, outcome, removed, added *)
+(** a raw probe: what the un-wrapped keeper function did on a throw-away branch of the same
+    pre-state, with the same fault: outcome, number of collaborator calls made, rows removed / added *)
+Definition probe_rec := (Z * Z * list (list Z) * list (list Z))%type.
+(* operation, outcome, removed, added, probes *)
+Definition step_rec := (xop * Z * list (list Z) * list (list Z) * list probe_rec)%type.
+
+Definition fault_index (x : xop) : Z :=
+  match x with XFault n _ _ => n | XSetLegacy n _ => n | _ => 0 end.
+
+Definition probe_ok (s : state) (prev : list (list Z)) (U : list addr) (D : list denom) (x : xop) (p : probe_rec) : bool :=
+  let '(pout, pcalls, prem, padd) := p in
+  match xraw s x with
+  | Some (sr, o, nleft) =>
+    let cur := observe sr U D in
+    let n := fault_index x in
+    let calls := if nleft =? 0 then n else n - nleft in
+    (out_code o =? pout) && (calls =? pcalls) && obs_eqb (rows_minus prev cur) prem && obs_eqb (rows_minus cur prev) padd
+  | None => false
+  end.
 
 Inductive case :=
 | CHist (t0 : Z) (U : list addr) (D : list denom) (fund : list (addr * denom * Z))
@@ -85,10 +103,11 @@ Inductive case :=
 Fixpoint replay (s : state) (prev : list (list Z)) (U : list addr) (D : list denom) (steps : list step_rec) : bool :=
   match steps with
   | [] => true
-  | (o, out, removed, added) :: r =>
-    let '(s', out') := step s o in
+  | (x, out, removed, added, probes) :: r =>
+    let '(s', out') := xstep s x in
     let cur := observe s' U D in
     (out_code out' =? out) && obs_eqb (rows_minus prev cur) removed && obs_eqb (rows_minus cur prev) added
+    && forallb (probe_ok s prev U D x) probes
     && replay s' cur U D r
   end.
 
@@ -102,13 +121,18 @@ Definition check (c : case) : bool :=
 
 (** debugging aid: index of the first step that disagrees, with what the model says *)
 Fixpoint first_diff (s : state) (prev : list (list Z)) (U : list addr) (D : list denom) (steps : list step_rec) (i : Z)
-  : option (Z * Z * list (list Z) * list (list Z)) :=
+  : option (Z * Z * list (list Z) * list (list Z) * list (Z * Z * list (list Z) * list (list Z))) :=
   match steps with
   | [] => None
-  | (o, out, removed, added) :: r =>
-    let '(s', out') := step s o in
+  | (x, out, removed, added, probes) :: r =>
+    let '(s', out') := xstep s x in
     let cur := observe s' U D in
     if (out_code out' =? out) && obs_eqb (rows_minus prev cur) removed && obs_eqb (rows_minus cur prev) added
+       && forallb (probe_ok s prev U D x) probes
     then first_diff s' cur U D r (i + 1)
-    else Some (i, out_code out', rows_minus prev cur, rows_minus cur prev)
+    else Some (i, out_code out', rows_minus prev cur, rows_minus cur prev,
+               match xraw s x with
+               | Some (sr, o, nleft) => [(out_code o, nleft, rows_minus prev (observe sr U D), rows_minus (observe sr U D) prev)]
+               | None => []
+               end)
   end.
